@@ -1,16 +1,16 @@
 #!/bin/bash
 # runs every seeded change against the quick check of its own property (scratch worktree + PRAATIO_ROOT)
 # usage: tools/matrix.sh [parallel=2]  -> out/matrix.txt
-cd /verif; mkdir -p out; : > out/matrix.txt
-par=${1:-2}
+cd /verif; mkdir -p out; : > ${3:-out/matrix.txt}
+par=${1:-2}; export OUTF=${3:-out/matrix.txt}
 run_one() {
   s=$1; pid=${s%%_*}
   r=$(VERIF_JOBS=8 tools/try_seeded.sh $s $pid 2>&1)
   v=$(echo "$r" | grep -c "VIOLATION")
   last=$(echo "$r" | grep "tier=" | tail -1 | sed 's/.*\] //')
   obs=$(echo "$r" | grep "obligation=" | sed 's/.*obligation=\([^ ]*\).*/\1/' | sort -u | tr '\n' ',' )
-  echo "$s caught=$([ $v -gt 0 ] && echo yes || echo NO) violations=$v [$obs] $last" >> out/matrix.txt
+  echo "$s caught=$([ $v -gt 0 ] && echo yes || echo NO) violations=$v [$obs] $last" >> ${OUTF}
 }
 export -f run_one
-ls seeded | xargs -P $par -I{} bash -c 'run_one {}'
-sort out/matrix.txt -o out/matrix.txt
+ls seeded | grep -E "${2:-.}" | xargs -P $par -I{} bash -c 'run_one {}'
+sort $OUTF -o $OUTF
